@@ -125,10 +125,12 @@ pub fn history_lines(rr: &RunResult) -> Vec<String> {
 pub fn write_replay(r: &Replay) -> String {
     let dir = replay_dir();
     let _ = std::fs::create_dir_all(&dir);
+    // replay files of the rustls-backend binary are marked so that `./check replay` picks that binary
+    let be = if cfg!(feature = "rustls-backend") { ".rustls" } else { "" };
     let path = if r.case > 0 {
-        format!("{}/{}-{}-{}.{}.json", dir, r.property, r.family, r.index, r.case)
+        format!("{}/{}-{}-{}.{}{be}.json", dir, r.property, r.family, r.index, r.case)
     } else {
-        format!("{}/{}-{}-{}.json", dir, r.property, r.family, r.index)
+        format!("{}/{}-{}-{}{be}.json", dir, r.property, r.family, r.index)
     };
     let _ = std::fs::write(&path, serde_json::to_string_pretty(r).unwrap());
     path
